@@ -19,6 +19,8 @@ pub struct ClientSlot {
     pub client_addr: Option<SocketAddr>,
     pub cfg: EndpointConfig,
     pub connected_at: Option<u64>,
+    pub client_nonce: Option<u32>,          // nonce of the SYNs this client object sends
+    pub accepted_server_nonce: Option<u32>, // nonce_ack of the first handshake ACK this client sent
 }
 
 pub struct Held {
@@ -93,7 +95,7 @@ impl Sess {
         set_rcvbuf(&relay);
         let relay_addr = relay.local_addr().unwrap();
         let i = self.slots.len();
-        self.slots.push(ClientSlot { name: format!("c{}", i), client: None, relay, relay_addr, client_addr: None, cfg, connected_at: None });
+        self.slots.push(ClientSlot { name: format!("c{}", i), client: None, relay, relay_addr, client_addr: None, cfg, connected_at: None, client_nonce: None, accepted_server_nonce: None });
         i
     }
 
@@ -377,6 +379,21 @@ impl Sess {
             let idx = self.wire_idx;
             self.wire_idx += 1;
             let mut d = describe_frame(&bytes);
+            // bookkeeping of the nonces this client object uses, and frame ids relative to them
+            match uv::Frame::read(&bytes) {
+                Some(uv::Frame::HandshakeSynFrame(f)) if to_server && self.slots[i].client_nonce.is_none() => self.slots[i].client_nonce = Some(f.nonce),
+                Some(uv::Frame::HandshakeAckFrame(f)) if to_server && self.slots[i].accepted_server_nonce.is_none() => self.slots[i].accepted_server_nonce = Some(f.nonce_ack),
+                Some(uv::Frame::DataFrame(f)) => {
+                    let base = if to_server { self.slots[i].client_nonce } else { self.slots[i].accepted_server_nonce };
+                    d["seq_rel"] = json!(base.map(|b| { let r = f.sequence_id.wrapping_sub(b); if r < 0x4000_0000 { r as i64 } else { -1 } }).unwrap_or(-2));
+                }
+                Some(uv::Frame::AckFrame(f)) => {
+                    // an ack frame reports the sender's receive window base, i.e. it counts from the PEER's nonce
+                    let base = if to_server { self.slots[i].accepted_server_nonce } else { self.slots[i].client_nonce };
+                    d["seq_rel"] = json!(base.map(|b| { let r = f.frame_window_base_id.wrapping_sub(b); if r < 0x4000_0000 { r as i64 } else { -1 } }).unwrap_or(-2));
+                }
+                _ => {}
+            }
             d["ev"] = json!("Wire");
             d["idx"] = json!(idx);
             d["from"] = json!(if to_server { self.slots[i].name.clone() } else { "s".to_string() });
